@@ -13,6 +13,7 @@ import Gleece.Lemmas.Validate
 import Gleece.Lemmas.Common
 import Gleece.Properties.C10
 import Gleece.Properties.C06
+import Gleece.Lemmas.Squeeze
 namespace Gleece.Link
 open Gleece.Validate Gleece.Reduce Gleece.IR
 
@@ -352,6 +353,41 @@ theorem accepted_route_path_params_partial (ctrlRoute : String) (parent : Securi
     refine ⟨?_, reduced_path_required parent m rr hr rp hrp'.1 hpath⟩
     rw [han]
     exact hback _ (List.mem_map.2 ⟨a, ha, rfl⟩)
+
+theorem reduceRoute_path (parent : Security) (m : Method) (rr : RRoute) (h : reduceRoute parent m = some rr) :
+    rr.path = ((m.annots.filter (·.name = "Route")).head?.map (·.value)).getD "" := by
+  unfold reduceRoute at h
+  simp only at h
+  split at h
+  · cases h
+  · simp only [Option.some.injEq] at h
+    subst h
+    simp only [firstValueOrEmpty, getFirst, List.head?_filter]
+
+/-- **from the source to the document** (C08's path-parameter clause, C10 × C06 × C08): for a route the validators
+    accept and the reducer reduces, the path the emitters document - `RemoveDuplicateSlash (controller prefix ++ method
+    route)` - and the path parameters they document match: every `{name}` of the documented path is the wire name of a
+    (required) path parameter, wire names are pairwise distinct, and (under `hF2` = finding C10-F2) every path
+    parameter names a `{name}` of the documented path.  `hslash`: no `{name}` contains a slash. -/
+theorem accepted_route_document_closed_partial (ctrlRoute : String) (parent : Security) (m : Method) (rr : RRoute)
+    (hc : hasError (commonValidate "route" m.annots) = false)
+    (hl : linkValidate ctrlRoute m = [])
+    (hr : reduceRoute parent m = some rr)
+    (hnd : (m.params.map (·.name)).Nodup) (hne : ∀ p ∈ m.params, p.name.isEmpty = false)
+    (hslash : ∀ n ∈ Gleece.Doc.templateParams (ctrlRoute ++ rr.path), Gleece.Doc.slashFree n)
+    (hF2 : ∀ a ∈ m.annots.filter (·.name = "Path"), (∀ al, aliasOf a = .ok al → al = "") →
+        a.value ∈ Gleece.Doc.templateParams (ctrlRoute ++ rr.path)) :
+    let documented := Gleece.Doc.templateParams (normPath (ctrlRoute ++ rr.path))
+    let pathParams := rr.params.filter (·.passedIn = "path")
+    (pathParams.map (·.nameInSchema)).Nodup ∧
+    (∀ n ∈ documented, n ≠ "" → n ∈ pathParams.map (·.nameInSchema)) ∧
+    (∀ rp ∈ pathParams, rp.nameInSchema ∈ documented ∧ isFieldRequired rp.validator.toList = true) := by
+  intro documented pathParams
+  have hpath := reduceRoute_path parent m rr hr
+  have hdoc : documented = Gleece.Doc.templateParams (ctrlRoute ++ rr.path) := Gleece.Doc.templateParams_normPath _ hslash
+  rw [hdoc]
+  rw [hpath] at hF2 ⊢
+  exact accepted_route_path_params_partial ctrlRoute parent m rr hc hl hr hnd hne hF2
 
 /-- non-vacuity: a concrete accepted route with a prefix parameter, an aliased and an un-aliased @Path, a query
     parameter and the request context meets every hypothesis, and reduces -/
